@@ -8,11 +8,17 @@
    (equivalently PrimFloat.is_finite f = true, FloatSumOps.fin_prim), u = 2^-53,
    Rsum / Rsumabs / Rsumsq = SUM x, SUM |x|, SUM x^2 over the real values, tol = 1e-9.
    "Partial sums do not overflow" = every element of the cumulative array is finite. *)
-From Coq Require Import List ZArith Reals Floats.
+From Coq Require Import List ZArith QArith Qcanon Reals Floats Permutation.
 From Flocq Require Import Core.Core.
 From GS Require Import Model.FloatSum.
 From GS Require Import Proofs.FloatSumOps.
 From GS Require Import Proofs.FloatSum.
+From GS Require Import Base.GoFloat.
+From GS Require Import Model.Stats.
+From GS Require Corr.C08Single.
+From GS Require Import Proofs.FloatSumQc.
+From GS Require Import Proofs.FloatVar.
+From GS Require Import Proofs.FloatVarQc.
 Import ListNotations.
 Local Open Scope R_scope.
 
@@ -79,3 +85,111 @@ Theorem C08_tolerance_sound_sum_pct_upper : forall (xs : list PrimFloat.float) (
   Rabs (FR (go_sum_top xs k) - Rsum (skipn (length xs - k) xs)) <= / 1000000000 * Rsumabs xs.
 Proof. exact tolerance_sound_sum_top. Qed.
 Print Assumptions C08_tolerance_sound_sum_pct_upper.
+
+(* ---------------------------------------------------------------------------------------------
+   The same, with the conclusion LITERALLY the boolean that Corr/C08Single.check_single evaluates in
+   the general regime (exact rationals Qc over Qc_of_bits of the float64 bit patterns).
+   bs = the bit patterns of the timer's values in arrival order (Corr: xs_of), bs' = the same values
+   in the order the Go loops add them (sorted), o = the bit pattern Go reported.  The exact
+   statistics and scales do not depend on the order (qsum_perm). *)
+
+Theorem C08_tolerance_sound_sum_qc : forall (bs bs' : list Z) (o : Z),
+  Permutation bs bs' -> (Z.of_nat (length bs) <= 1000000)%Z ->
+  Forall fin (map float_of_bits bs') -> Forall fin (go_cumulative (map float_of_bits bs')) ->
+  float_of_bits o = go_sum (map float_of_bits bs') -> C08Single.fin o = true ->
+  C08Single.near (C08Single.scale1 (map Qc_of_bits bs)) (qsum (map Qc_of_bits bs)) o = true.
+Proof. exact (fun bs bs' o Hp Hn => tolerance_sound_sum_qc bs bs' Hp Hn o). Qed.
+Print Assumptions C08_tolerance_sound_sum_qc.
+
+Theorem C08_tolerance_sound_sumsq_qc : forall (bs bs' : list Z) (o : Z),
+  Permutation bs bs' -> (Z.of_nat (length bs) <= 1000000)%Z ->
+  Forall (fun y => fin y /\ fin (square y) /\ sq_normal y) (map float_of_bits bs') ->
+  Forall fin (go_cumul_squares (map float_of_bits bs')) ->
+  float_of_bits o = go_sumsq (map float_of_bits bs') -> C08Single.fin o = true ->
+  C08Single.near (C08Single.scale2 (map Qc_of_bits bs)) (qsumsq (map Qc_of_bits bs)) o = true.
+Proof. exact (fun bs bs' o Hp Hn => tolerance_sound_sumsq_qc bs bs' Hp Hn o). Qed.
+Print Assumptions C08_tolerance_sound_sumsq_qc.
+
+(* percentile sums: the model value is the exact sum of the j lowest / k highest sorted values *)
+Theorem C08_tolerance_sound_sum_pct_lower_qc : forall (bs bs' : list Z) (o : Z) (j : nat),
+  Permutation bs bs' -> (Z.of_nat (length bs) <= 1000000)%Z -> (0 < j <= length bs')%nat ->
+  Forall fin (map float_of_bits bs') -> Forall fin (go_cumulative (map float_of_bits bs')) ->
+  float_of_bits o = go_sum (firstn j (map float_of_bits bs')) -> C08Single.fin o = true ->
+  C08Single.near (C08Single.scale1 (map Qc_of_bits bs)) (qsum (map Qc_of_bits (firstn j bs'))) o = true.
+Proof. exact (fun bs bs' o j Hp Hn => tolerance_sound_sum_pct_lower_qc bs bs' Hp Hn o j). Qed.
+Print Assumptions C08_tolerance_sound_sum_pct_lower_qc.
+
+Theorem C08_tolerance_sound_sum_pct_upper_qc : forall (bs bs' : list Z) (o : Z) (k : nat),
+  Permutation bs bs' -> (Z.of_nat (length bs) <= 1000000)%Z -> (0 < k < length bs')%nat ->
+  Forall fin (map float_of_bits bs') -> Forall fin (go_cumulative (map float_of_bits bs')) ->
+  fin (go_sum_top (map float_of_bits bs') k) ->
+  float_of_bits o = go_sum_top (map float_of_bits bs') k -> C08Single.fin o = true ->
+  C08Single.near (C08Single.scale1 (map Qc_of_bits bs))
+                 (qsum (map Qc_of_bits (skipn (length bs' - k) bs'))) o = true.
+Proof. exact (fun bs bs' o k Hp Hn => tolerance_sound_sum_pct_upper_qc bs bs' Hp Hn o k). Qed.
+Print Assumptions C08_tolerance_sound_sum_pct_upper_qc.
+
+(* ---------------------------------------------------------------------------------------------
+   Deviation.  Go computes it in a SECOND pass with the computed mean:
+     sumOfDiffs += (x_i - mean) * (x_i - mean);  StdDev = math.Sqrt(sumOfDiffs / count)
+   (Model/FloatSum.go_sum_of_diffs / go_variance / go_stddev).  The accumulated sum is accurate
+   RELATIVE to SUM (x_i - c)^2 around the computed mean c ... *)
+Theorem C08_float_sum_of_diffs_error : forall (xs : list PrimFloat.float) (mh : PrimFloat.float),
+  fin mh -> Forall (dev_good mh) xs -> Forall fin (partials (dev_term mh) 0%float xs) ->
+  Rabs (FR (go_sum_of_diffs xs mh) - rdev (FR mh) (map FR xs))
+    <= ((1 + u) ^ (length xs + 3) - 1) * rdev (FR mh) (map FR xs).
+Proof. exact sum_of_diffs_bound. Qed.
+Print Assumptions C08_float_sum_of_diffs_error.
+
+(* ... which is  n * variance + n * (m - c)^2: the error of the mean enters in second order only *)
+Theorem C08_float_deviation_shift : forall (c : R) (l : list R), (0 < length l)%nat ->
+  rdev c l = rdev (rsum l / INR (length l)) l
+             + INR (length l) * ((rsum l / INR (length l) - c) * (rsum l / INR (length l) - c)).
+Proof. exact rdev_shift. Qed.
+Print Assumptions C08_float_deviation_shift.
+
+(* ... but NO bound relative to the exact variance exists: three equal values have variance 0, the
+   computed mean of 0.1, 0.1, 0.1 is not 0.1 and sumOfDiffs is > 0.  The bound is absolute, in units
+   of max|x|^2 - the scale the correspondence uses. *)
+Theorem C08_float_no_relative_variance_bound :
+  PrimFloat.eqb (go_mean [0x1.999999999999ap-4; 0x1.999999999999ap-4; 0x1.999999999999ap-4]%float 3) 0x1.999999999999ap-4 = false
+  /\ PrimFloat.ltb 0 (go_sum_of_diffs [0x1.999999999999ap-4; 0x1.999999999999ap-4; 0x1.999999999999ap-4]%float (go_mean [0x1.999999999999ap-4; 0x1.999999999999ap-4; 0x1.999999999999ap-4]%float 3)) = true.
+Proof. exact no_relative_variance_bound. Qed.
+Print Assumptions C08_float_no_relative_variance_bound.
+
+(* stddev^2 against the exact population variance, up to 10^6 values with |x_i| <= M: the
+   hypotheses say that nothing overflows and that no product or quotient on the way is subnormal *)
+Theorem C08_tolerance_sound_variance :
+  forall (xs : list PrimFloat.float) (count : PrimFloat.float) (M : R),
+    (0 < length xs)%nat -> (Z.of_nat (length xs) <= 1000000)%Z ->
+    fin count -> FR count = INR (length xs) ->
+    Forall fin xs -> Forall fin (go_cumulative xs) -> fin (go_mean xs count) ->
+    (FR (go_sum xs) / FR count = 0 \/ bpow radix2 (-1022) <= Rabs (FR (go_sum xs) / FR count)) ->
+    Forall (dev_good (go_mean xs count)) xs ->
+    Forall fin (partials (dev_term (go_mean xs count)) 0%float xs) ->
+    fin (go_variance xs count) ->
+    (FR (go_sum_of_diffs xs (go_mean xs count)) / FR count = 0
+     \/ bpow radix2 (-1022) <= Rabs (FR (go_sum_of_diffs xs (go_mean xs count)) / FR count)) ->
+    Forall (fun x => Rabs (FR x) <= M) xs ->
+    Rabs (FR (go_stddev xs count) * FR (go_stddev xs count) - exact_variance xs) <= / 1000000000 * (M * M).
+Proof. exact tolerance_sound_variance. Qed.
+Print Assumptions C08_tolerance_sound_variance.
+
+(* the boolean of check_single: close (smax * smax) (t_var t) (stddev * stddev) *)
+Theorem C08_tolerance_sound_variance_qc :
+  forall (bs bs' : list Z) (count : PrimFloat.float) (o : Z),
+    Permutation bs bs' -> (0 < length bs)%nat -> (Z.of_nat (length bs) <= 1000000)%Z ->
+    fin count -> FR count = INR (length bs) ->
+    let xs := map float_of_bits bs' in
+    Forall fin xs -> Forall fin (go_cumulative xs) -> fin (go_mean xs count) ->
+    (FR (go_sum xs) / FR count = 0 \/ bpow radix2 (-1022) <= Rabs (FR (go_sum xs) / FR count)) ->
+    Forall (dev_good (go_mean xs count)) xs ->
+    Forall fin (partials (dev_term (go_mean xs count)) 0%float xs) ->
+    fin (go_variance xs count) ->
+    (FR (go_sum_of_diffs xs (go_mean xs count)) / FR count = 0
+     \/ bpow radix2 (-1022) <= Rabs (FR (go_sum_of_diffs xs (go_mean xs count)) / FR count)) ->
+    float_of_bits o = go_stddev xs count ->
+    C08Single.close (C08Single.scale_max (map Qc_of_bits bs) * C08Single.scale_max (map Qc_of_bits bs))%Qc
+                    (qvariance (map Qc_of_bits bs)) (Qc_of_bits o * Qc_of_bits o)%Qc = true.
+Proof. exact (fun bs bs' count o Hp => tolerance_sound_variance_qc bs bs' Hp count o). Qed.
+Print Assumptions C08_tolerance_sound_variance_qc.
